@@ -7,3 +7,5 @@ import DafRel.Props.C05
 #print axioms DafRel.Props.C05.simplify_total
 #print axioms DafRel.Props.C05.finishApply_sound
 #print axioms DafRel.Props.C05.finishApply_rejects_only_unsupported
+#print axioms DafRel.Props.C05.bridge_Slice_then
+#print axioms DafRel.Props.C05.bridge_Slice_new
